@@ -110,7 +110,8 @@ def toy_receive(cfg, seq0, kex, chunks):
     r._initial_kex_done = kex
     r._Packetizer__sequence_number_in = seq0
     install_in(r, cfg)
-    return read_until_stop(r)
+    got, fin = read_until_stop(r)
+    return got, fin, read_after_failure(r, fin)
 
 
 def toy_tamper_corr(ctx):
@@ -124,7 +125,15 @@ def toy_tamper_corr(ctx):
         sent, wires = toy_record(rng, cfg, seq0, kex, rng.randrange(1, 5))
         kind, stream = tamper(rng, wires)
         chunks = chunk_like_model(gen_sizes(rng, len(stream)), stream)
-        got, fin = toy_receive(cfg, seq0, kex, chunks)
+        got, fin, after = toy_receive(cfg, seq0, kex, chunks)
+        if after and cfg["mode"] != 0 and cfg["msz"] > 0 and not is_prefix(got + after, sent):
+            ctx.fail("toy-non-prefix-after-integrity-failure-" + MODE_NAMES[cfg["mode"]],
+                     "read_message called again after an integrity failure delivered messages that do not "
+                     "continue the sent sequence (toy engines)",
+                     case={"cfg": cfg, "seq0": seq0, "kex": kex, "edit": kind, "stream": stream.hex(),
+                           "sent": [p.hex() for p in sent]},
+                     expected="before + after is a prefix of the sent messages",
+                     observed={"before": [g.hex() for g in got], "fin": fin, "after": [g.hex() for g in after]})
         if len(fin) > 2:       # exception class outside the model's vocabulary
             ctx.count(("odd", kind, repr(fin)), nontrivial=False, kind="toy-other-exc-" + str(fin[2]))
             continue
@@ -178,12 +187,38 @@ def real_receive(rec, chunks):
     r._initial_kex_done = True
     r._Packetizer__sequence_number_in = rec["seq0"]
     real_install(r, rec["suite"], rec["keys"], False, rec["zlib"])
-    return read_until_stop(r, limit=len(rec["sent"]) + 4)
+    got, fin = read_until_stop(r, limit=len(rec["sent"]) + 4)
+    return got, fin, read_after_failure(r, fin)
+
+
+def read_after_failure(p, fin, tries=6):
+    """Fail-stop after detection: once read_message raised an integrity error, later calls must never
+    deliver anything (they fail again or run dry).  Returns what was delivered after the first failure."""
+    after = []
+    if fin[:1] != [-2]:
+        return after
+    for _ in range(tries):
+        more, f2 = read_until_stop(p, limit=4)
+        after += more
+        if f2 == [-1]:
+            break
+    return after
 
 
 def check_real(ctx, rec, stream, edit, chunks=None, max_delivered=None):
-    got, fin = real_receive(rec, chunks if chunks is not None else [stream])
+    got, fin, after = real_receive(rec, chunks if chunks is not None else [stream])
     kind = suite_kind(rec["suite"])
+    if after and not is_prefix(got + after, rec["sent"]):
+        # the Packetizer alone is not fail-stop (Transport closes on the exception); but whatever further calls
+        # deliver after a failure must still continue the unmodified prefix - never skip, repeat or alter
+        ctx.fail("non-prefix-after-integrity-failure-" + kind,
+                 "read_message called again after an integrity failure delivered messages that do not continue "
+                 "the sent sequence (a rejected packet was skipped over / the receiver resynchronised)",
+                 case={"suite": list(rec["suite"]), "zlib": rec["zlib"], "keys": rec["keys"], "seq0": rec["seq0"],
+                       "sent": [p.hex() for p in rec["sent"]], "edit": list(edit), "stream": stream.hex()},
+                 expected="everything delivered, before and after the failure, is a prefix of the sent messages",
+                 observed={"delivered_before": len(got), "fin": fin, "delivered_after": [g.hex()[:80] for g in after]})
+        return False
     if max_delivered is not None and is_prefix(got, rec["sent"]) and len(got) > max_delivered:
         # every byte of an encrypted packet (length, ciphertext, padding, tag) is authenticated:
         # a packet with a modified byte must be rejected, not delivered
